@@ -128,7 +128,8 @@ func (wi *WireInfo) readText(claim string, key int64, n *refcbor.Node) *string {
 	switch {
 	case n.K == refcbor.Text && !n.Indef:
 		if !utf8.Valid(n.B) {
-			wi.open(claim, "invalid UTF-8")
+			// a text string that is not text is not the right CBOR type for a text claim
+			wi.wrong(claim, key, "invalid-utf8-for-tstr")
 			return nil
 		}
 		if nonMinimal(n) {
